@@ -105,6 +105,8 @@ void use(DT& t, DT& o)
 	t.Update(t[0], c1, 5); t.TryUpdate(t[0], c1, 5);
 	{ const int five = 5; t.Update(t[0], c1, five); t.TryUpdate(t[0], c1, five); }
 	auto s = t.Select(c1 == 1);
+	s.Sort(c1); s.Group(c1); (void)s.GetLowerBound(c1 == 1); (void)s.GetUpperBound(c1 == 1);
+	{ auto e = t.SelectEmpty(); e.Add(s.GetBegin(), s.GetEnd()); }
 	t.Assign(s.GetBegin(), s.GetEnd()); t.Remove(s.GetBegin(), s.GetEnd());
 	t.Remove([] (DT::ConstRowReference) { return true; });
 	t.Remove(t[0]); t.Remove(size_t(0)); { auto r = t.Extract(t[0]); } { auto r = t.Extract(size_t(0)); }
